@@ -83,6 +83,7 @@ NA = {
 }
 
 KNOWN = {
+    "C03": " Known finding reported by this check: F48 (the message-based dialer drops bytes that follow the confirmation in the same message).",
     "C05": " Known findings reported by this check (exit 0, KNOWN-FINDING lines): F15, F18 (dial outcomes the manager concludes itself are not reported).",
     "C11": " Known finding reported by this check: F12 (dead pending_open after an outbound open failure in Validating).",
     "C13": " Known findings reported by this check: F15, F18 (via R05.9).",
